@@ -548,7 +548,8 @@ def main(ctx):
             c['v0'] = G.enc(G.start_vector(c['spec'], G.dense_operator(c['spec'])))
     results = run_chunks(ctx, cases)
     coq_l, coq_l_idx, coq_a, coq_a_idx = [], [], [], []
-    hist = {'rebuild_path': 0, 'early_exit': 0, 'full_dim': 0, 'N1': 0, 'reortho': 0, 'E_shift': 0, 'ortho': 0, 'beyond_dim': 0}
+    coq_h, coq_h_idx = [], []
+    hist = {'rebuild_path': 0, 'early_exit': 0, 'full_dim': 0, 'N1': 0, 'reortho': 0, 'E_shift': 0, 'ortho': 0, 'beyond_dim': 0, 'h_reads_converged': 0}
     for idx, (case, r) in enumerate(zip(cases, results)):
         kind = case['kind']
         stream = kind + ('-evo' if case.get('evo') else '')
@@ -597,6 +598,11 @@ def main(ctx):
             terms = [tuple(Nat(v) for v in t) for t in tr['terms']]
             coq_l.append(coq_lit(((Nat(nc), bool(case['opts'].get('reortho')), Nat(N), evs, terms))))
             coq_l_idx.append(idx)
+            # accesses to the tridiagonal matrix h interleaved with the other events (Model/Krylov2.v)
+            hevs = [tuple(Nat(v) for v in e) for e in tr['hevents']]
+            coq_h.append(coq_lit((Nat(nc), bool(case['opts'].get('reortho')), Nat(N), [bool(b) for b in tr['cv']], hevs)))
+            coq_h_idx.append(idx)
+            hist['h_reads_converged'] += sum(tr['cv'])
         elif kind == 'arnoldi':
             probs, info = oracle_arnoldi(ctx, case, r)
             ctx.count(stream, [case['spec']['seed'], case['opts'], case.get('evo')], nontrivial=info['m'] > 1,
@@ -649,12 +655,20 @@ def main(ctx):
         ctx.fail('correspondence', 'Model/Krylov.v and the instrumented Lanczos run disagree (cache / coefficient bookkeeping)',
                  {'stream': 'lanczos-trace', 'case': case, 'impl_terms': results[coq_l_idx[b]]['traced']['terms'],
                   'N': results[coq_l_idx[b]]['traced']['N']})
+    badh, err = common.coq_failing_indices('cases_c16_h', ['Base.Prelude', 'Model.Krylov', 'Model.Krylov2'], 'check_hevents', coq_h, shard=60)
+    if err:
+        ctx.fail('correspondence', 'model evaluation failed: ' + err[-600:], None)
+    for b in badh[:5]:
+        case = cases[coq_h_idx[b]]
+        ctx.fail('correspondence', 'Model/Krylov2.v and the instrumented Lanczos run disagree (program order of the accesses to _h_krylov)',
+                 {'stream': 'lanczos-h-trace', 'case': case, 'N': results[coq_h_idx[b]]['traced']['N'],
+                  'cv': results[coq_h_idx[b]]['traced']['cv']})
     bad2, err = common.coq_failing_indices('cases_c16_a', ['Base.Prelude', 'Model.Krylov'], 'check_argsort', coq_a)
     if err:
         ctx.fail('correspondence', 'model evaluation failed: ' + err[-600:], None)
     for b in bad2[:5]:
         ctx.fail('correspondence', 'Model/Krylov.v argsort_model and tools.misc.argsort disagree', {'stream': 'argsort', 'case': cases[coq_a_idx[b]]})
-    ctx.cov['traces_validated_against_impl'] = len(coq_l) + len(coq_a)
+    ctx.cov['traces_validated_against_impl'] = len(coq_l) + len(coq_h) + len(coq_a)
     ctx.cov['input_distribution'] = hist
     ctx.assumptions += [
         'C16 model: Krylov vectors are abstract indices; the float kernel (inner products, norms, eig of the projected matrix, exit '
